@@ -35,6 +35,11 @@ func C18(c *core.Ctx) {
 }
 
 func ruleAbort(c *core.Ctx, a *engb.Analyzer) {
+	// complete output: a written file holds the new source and nothing else; every argument is processed (never replaced by an
+	// expansion that may be empty); standard output carries only the generated source
+	emit(c, a.OutputFilesTruncated())
+	emit(c, a.EveryArgumentIsProcessed("main.init$1"))
+	emit(c, a.StdoutCarriesOnlyCode())
 	r := a.Abort()
 	if r.Run != nil {
 		run := c.Prog.FuncName(r.Run)
